@@ -56,6 +56,13 @@ def top_tree(draw):
     kind = draw(st.sampled_from(['arith', 'arith', 'cmp', 'amp', 'ampcmp', 'callcmp']))
     if kind == 'arith':
         t = draw(arith_tree)
+        if draw(st.booleans()):
+            # make sure several operators of different levels meet without parentheses
+            a, b = draw(arith_tree), draw(arith_tree)
+            o1, o2 = draw(st.sampled_from(gf.ARITH)), draw(st.sampled_from(gf.ARITH))
+            t = ['bin', o1, ['bin', o2, t, a], b] if draw(st.booleans()) else ['bin', o1, t, ['bin', o2, a, b]]
+            if draw(st.booleans()):
+                t = ['bin', draw(st.sampled_from(gf.ARITH)), ['neg', t[2]], t[3]] if draw(st.booleans()) else ['bin', t[1], t[2], ['neg', t[3]]]
     elif kind == 'cmp':
         t = ['bin', draw(st.sampled_from(gf.CMP)), draw(arith_tree), draw(arith_tree)]
     elif kind == 'amp':
